@@ -45,8 +45,10 @@ def r1(ctx):
         fn = text(c.func)
         if fn == "self._checkFillIntField" and len(c.args) == 2:
             who = "root" if isinstance(c.args[0], ast.Constant) else "rank"
-            ints.setdefault(who, set()).add(c.args[1].value if isinstance(
-                c.args[1], ast.Constant) else text(c.args[1]))
+            # a literal, or the variable of a loop over literal field names
+            vals = pat.const_values(ctx, f, c.args[1])
+            ints.setdefault(who, set()).update(
+                vals if vals is not None else [text(c.args[1])])
         elif fn == "self._checkFillStrField" and len(c.args) == 4:
             opts = [e.value for e in c.args[3].elts] if isinstance(
                 c.args[3], ast.List) else None
@@ -70,13 +72,12 @@ def r1(ctx):
                 % (strs, want_s), text_="spec string fields")
     g = ctx.func(F + "_checkFillIntField")
     fills = [n for n in g.own_nodes() if isinstance(n, ast.Assign)
-             and text(n.targets[0]).replace(" ", "") == "self.spec[rank][field]"]
+             and pat.inline(ctx, g, n.targets[0]).replace(" ", "") == "self.spec[rank][field]"]
+    missing = {pat.A("not in", "field", "self.spec[rank].keys()"),
+               pat.A("not in", "field", "self.spec[rank]")}
     if len(fills) == 1 and isinstance(fills[0].value, ast.Constant) and \
-            fills[0].value.value == 0 and any(
-                (text(t).replace(" ", ""), pol) == ("fieldnotinself.spec[rank].keys()", True)
-                or (text(t).replace(" ", ""), pol) == ("fieldinself.spec[rank].keys()", False)
-                or (text(t).replace(" ", ""), pol) == ("fieldnotinself.spec[rank]", True)
-                for t, pol in guards(fills[0])):
+            fills[0].value.value == 0 and \
+            pat.catoms_of_guards(ctx, g, fills[0]) & missing:
         ctx.ok("C18.R1", g, fills[0], "a missing integer field becomes 0 bits")
     else:
         ctx.bad("C18.R1", g, g.node, "a missing integer field is no longer "
@@ -84,7 +85,7 @@ def r1(ctx):
                 text_="_checkFillIntField fill")
     g = ctx.func(F + "_checkFillStrField")
     fills = [n for n in g.own_nodes() if isinstance(n, ast.Assign)
-             and text(n.targets[0]).replace(" ", "") == "self.spec[rank][field]"]
+             and pat.inline(ctx, g, n.targets[0]).replace(" ", "") == "self.spec[rank][field]"]
     if len(fills) == 1 and text(fills[0].value) == "default":
         ctx.ok("C18.R1", g, fills[0], "a missing string field takes the given default")
     else:
@@ -123,7 +124,7 @@ def poly(ctx, f, e, depth=0):
         if d is not None and isinstance(d, (ast.BinOp, ast.Subscript, ast.Name)):
             return poly(ctx, f, d, depth + 1)
         return {(e.id,): 1}
-    return {(text(e).replace(" ", "").replace('"', "'"),): 1}
+    return {(pat.inline(ctx, f, e).replace(" ", "").replace('"', "'"),): 1}
 
 
 def r2(ctx):
@@ -144,7 +145,7 @@ def r2(ctx):
               and text(n.targets[0]) == "num_elems"]
     got = {}
     for d in n_defs:
-        gs = [(text(t).replace(" ", "").replace('"', "'"), pol)
+        gs = [(pat.inline(ctx, f, t).replace(" ", "").replace('"', "'"), pol)
               for t, pol in atomic_guards(d)]
         if (S % "format" + "=='C'", True) in gs:
             got["C"] = text(d.value).replace(" ", "")
@@ -178,43 +179,32 @@ def _accumulates(f, var):
 def r3(ctx):
     # rank
     f = ctx.func(F + "getRank")
-    init = [n for n in f.own_nodes() if isinstance(n, ast.Assign)
-            and text(n.targets[0]) == "total"]
-    acc = _accumulates(f, "total")
     rid = f.params[1]
-    ok = len(init) == 1 and text(init[0].value).replace(" ", "").replace('"', "'") == \
-        "self.spec[%s]['rhbits']" % rid and len(acc) == 1
+    sf = pat.sum_form(ctx, f)
+    ok = sf is not None and \
+        pat.inline(ctx, f, sf["start"]).replace(" ", "").replace('"', "'") == \
+        "self.spec[%s]['rhbits']" % rid and isinstance(sf["target"], ast.Name) and \
+        pat.inline(ctx, f, sf["iter"]).replace(" ", "") in (
+            "self.tensor.ranks[self.tensor.getRankIds().index(%s)].getFibers()" % rid,
+            "self.tensor.ranks[self.tensor.getRankIds().index(%s)].fibers" % rid) and \
+        text(sf["elt"]).replace(" ", "") == "self._getFiberFootprint(%s,%s)" % (
+            rid, sf["target"].id)
     if ok:
-        n, v = acc[0]
-        lp = [a for a in _anc(n) if isinstance(a, ast.For)]
-        ok = len(lp) == 1 and text(lp[0].iter).replace(" ", "") in (
-            "rank.getFibers()", "rank.fibers") and \
-            text(v).replace(" ", "") == "self._getFiberFootprint(%s,%s)" % (
-                rid, text(lp[0].target))
-        if ok:
-            rk = pat.inline(ctx, f, ast.parse("rank", mode="eval").body)
-    rets = pat.returns(f)
-    if ok and rets and text(rets[-1].value) == "total":
-        ctx.ok("C18.R3", f, acc[0][0], "rank = rhbits + sum over every fiber "
+        ctx.ok("C18.R3", f, sf["node"], "rank = rhbits + sum over every fiber "
                "in the rank list")
     else:
         ctx.bad("C18.R3", f, f.node, "getRank is no longer rhbits + the sum of "
                 "_getFiberFootprint over rank.getFibers()", text_="getRank")
     # tensor
     f = ctx.func(F + "getTensor")
-    init = [n for n in f.own_nodes() if isinstance(n, ast.Assign)
-            and text(n.targets[0]) == "total"]
-    acc = _accumulates(f, "total")
-    ok = len(init) == 1 and text(init[0].value).replace(" ", "") == "self.getRoot()" \
-        and len(acc) == 1
+    sf = pat.sum_form(ctx, f)
+    ok = sf is not None and \
+        pat.inline(ctx, f, sf["start"]).replace(" ", "") == "self.getRoot()" and \
+        isinstance(sf["target"], ast.Name) and \
+        text(sf["iter"]).replace(" ", "") == "self.tensor.getRankIds()" and \
+        text(sf["elt"]).replace(" ", "") == "self.getRank(%s)" % sf["target"].id
     if ok:
-        n, v = acc[0]
-        lp = [a for a in _anc(n) if isinstance(a, ast.For)]
-        ok = len(lp) == 1 and text(lp[0].iter).replace(" ", "") == \
-            "self.tensor.getRankIds()" and text(v).replace(" ", "") == \
-            "self.getRank(%s)" % text(lp[0].target)
-    if ok:
-        ctx.ok("C18.R3", f, acc[0][0], "tensor = root + sum over all ranks")
+        ctx.ok("C18.R3", f, sf["node"], "tensor = root + sum over all ranks")
     else:
         ctx.bad("C18.R3", f, f.node, "getTensor is no longer getRoot() + the "
                 "sum of getRank over all rank ids", text_="getTensor")
@@ -248,6 +238,14 @@ def r3(ctx):
     for d in it_defs:
         gs = [(text(t).replace(" ", "").replace('"', "'"), pol)
               for t, pol in atomic_guards(d, stop=w)]
+        # a temporary for self.spec[rank] reads as what it holds
+        for t, pol in atomic_guards(d, stop=w):
+            if isinstance(t, ast.Compare) and isinstance(t.left, ast.Subscript) and \
+                    isinstance(t.left.value, ast.Name):
+                base = pat.single_def(ctx, f, t.left.value)
+                if base is not None:
+                    gs.append((text(t).replace(text(t.left.value), text(base), 1)
+                               .replace(" ", "").replace('"', "'"), pol))
         if ("self.spec[rank]['format']=='U'", True) in gs:
             got["U"] = text(d.value).replace(" ", "")
         elif ("self.spec[rank]['format']=='U'", False) in gs or \
@@ -261,10 +259,29 @@ def r3(ctx):
                 "uncompressed rank must use iterShape(), a compressed one "
                 "iterOccupancy()" % got, text_="getSubTree traversal kind")
     push = [c for c in _walk(w.body) if isinstance(c, ast.Call)
-            and text(c.func) == "fibers.append"]
-    okp = len(push) == 1 and any(
-        (text(t).replace(" ", ""), pol) == ("isinstance(payload,Fiber)", True)
-        for t, pol in atomic_guards(enclosing_stmt(push[0]), stop=w))
+            and text(c.func) in ("fibers.append", "fibers.extend", "fibers.insert")]
+    okp = False
+    if len(push) == 1 and text(push[0].func) == "fibers.append" and \
+            len(push[0].args) == 1 and isinstance(push[0].args[0], ast.Name):
+        # for _, p in <children>: if isinstance(p, Fiber): fibers.append(p)
+        pv = push[0].args[0].id
+        lp = [a for a in _anc(push[0]) if isinstance(a, ast.For) and is_within(a, w)]
+        okp = bool(lp) and isinstance(lp[0].target, ast.Tuple) and \
+            len(lp[0].target.elts) == 2 and text(lp[0].target.elts[1]) == pv and \
+            text(lp[0].iter) == "iter_" and any(
+                (text(t).replace(" ", ""), pol) == ("isinstance(%s,Fiber)" % pv, True)
+                for t, pol in atomic_guards(enclosing_stmt(push[0]), stop=w))
+    elif len(push) == 1 and text(push[0].func) == "fibers.extend" and \
+            len(push[0].args) == 1 and isinstance(
+                push[0].args[0], (ast.GeneratorExp, ast.ListComp)):
+        # fibers.extend(p for _, p in <children> if isinstance(p, Fiber))
+        ge = push[0].args[0]
+        g0 = ge.generators[0]
+        okp = len(ge.generators) == 1 and isinstance(ge.elt, ast.Name) and \
+            isinstance(g0.target, ast.Tuple) and len(g0.target.elts) == 2 and \
+            text(g0.target.elts[1]) == ge.elt.id and text(g0.iter) == "iter_" and \
+            [text(c).replace(" ", "") for c in g0.ifs] == \
+            ["isinstance(%s,Fiber)" % ge.elt.id]
     if okp:
         ctx.ok("C18.R3", f, push[0], "only fiber payloads are pushed")
     else:
@@ -272,7 +289,7 @@ def r3(ctx):
                 "payloads", text_="getSubTree push")
     full = [r for r in pat.returns(f) if not is_within(r, w) and
             any("len(coords)==len(self.tensor.getRankIds())" ==
-                text(t).replace(" ", "") and pol for t, pol in guards(r))]
+                pat.inline(ctx, f, t).replace(" ", "") and pol for t, pol in guards(r))]
     p = poly(ctx, f, full[0].value) if full else None
     leaf = "self.spec[self.tensor.getRankIds()[-1]]"
     if p == {(leaf + "['cbits']",): 1, (leaf + "['pbits']",): 1}:
